@@ -124,6 +124,18 @@ def decode_check(bits, value, dt, mapcls, use_map, out, hist=None):
             out.append(("C01:str-type:" + name, "%s: str() gave %r" % (where, type(s))))
     except Exception as e:  # noqa
         out.append(("C01:str-raised:%s:%s" % (name, type(e).__name__), "%s: str() raised %r" % (where, e)))
+    if name not in GENERIC and name != "Command":
+        # the caller refills its receive buffer: a decoded (known) command keeps the bits it was decoded from
+        try:
+            f[0] = not f[0]
+            f[bits - 1] = not f[bits - 1]
+            if c.frame.as_integer != value:
+                out.append(("C01:result-shares-the-callers-frame:" + name, "%s: after the caller changed its frame object the "
+                            "decoded command's frame is %#x" % (where, c.frame.as_integer)))
+            f[0] = not f[0]
+            f[bits - 1] = not f[bits - 1]
+        except Exception as e:  # noqa
+            out.append(("C01:frame-access-raised:" + name, "%s: %r" % (where, e)))
     if hist is not None:
         hist[name] += 1
     return c
@@ -239,6 +251,9 @@ IMPORT_HISTORIES = {
     "drivers-only": (False, ["dali.driver.hid", "dali.device.helpers", "dali.gear"]),
     # everything imported, then the application builds its commands/events/maps BEFORE the first frame is decoded
     "constructions-before-first-decode": ("construct", ["dali.gear", "dali.device"]),
+    # the program registers decoders of its own for proprietary frame lengths (direct subclasses of Command whose
+    # from_frame answers None for "not mine", as the Command docstring prescribes)
+    "vendor-decoders-registered": ("vendor", ["dali.gear", "dali.device"]),
 }
 
 
@@ -246,7 +261,15 @@ def import_history_fingerprints(name):
     """Runs in a fresh interpreter (see __main__)."""
     import importlib
     early, mods = IMPORT_HISTORIES[name]
-    if early == "construct":
+    if early == "vendor":
+        from dali import command, frame
+        for bits in (8, 15, 17, 20, 25, 32):
+            def _ff(cls, f, devicetype=0, dev_inst_map=None, _bits=bits):
+                if f[_bits - 1:_bits - 4] == 0xA and f[3:0] == 0x5:
+                    return cls(frame.ForwardFrame(_bits, f.as_integer))
+                return None
+            type("Vendor%d" % bits, (command.Command,), {"_framesize": bits, "from_frame": classmethod(_ff)})
+    elif early == "construct":
         _load()
         cons = constructors()
         for k in list(range(len(cons)))[::-1] + list(range(len(cons))):
@@ -649,7 +672,9 @@ def history_strategy():
     g = st.builds(lambda a, i, data: ("decode", 24, (a << 17) | 0x8000 | (i << 10) | data, 0, "grow"), small, small,
                   st.sampled_from([0, 1, 5, 600, 1023]))
     m = st.tuples(st.just("mapadd"), small, small, st.sampled_from([1, 3, 4, 0, 2, 31]))
-    return st.lists(st.one_of(d, d, c, r, v, g, m), min_size=1, max_size=30)
+    # one receive buffer reused for every frame of a length, refilled bit by bit (a bit-banging bus monitor)
+    b = d.map(lambda t: ("bufdecode",) + tuple(t[1:]))
+    return st.lists(st.one_of(d, d, c, r, v, g, m, b, b), min_size=1, max_size=30)
 
 
 def vandalise(c, k):
@@ -687,10 +712,31 @@ def run_history(ops):
     command, frame = _load()
     grow = DeviceInstanceTypeMapper()
     entries = {}
+    buffers = {}
     for op in ops:
         op = list(op)
         if op[0] == "construct":
             cons[op[1] % len(cons)]()
+            continue
+        if op[0] == "bufdecode":
+            bits, v, dt, mp = op[1], op[2], op[3], op[4]
+            buf = buffers.get(bits)
+            if buf is None:
+                buf = buffers[bits] = frame.ForwardFrame(bits, 0)
+            try:
+                for i in range(bits):
+                    buf[i] = bool((v >> i) & 1)
+                a = command.from_frame(buf, devicetype=dt, dev_inst_map=get_map(None if mp == "no" else mp) if mp != "no" else None)
+                fa = fp(a) + "|" + repr(a.frame.pack) + "|" + str(a.frame)
+                b_ = command.from_frame(frame.ForwardFrame(bits, v), devicetype=dt,
+                                        dev_inst_map=get_map(None if mp == "no" else mp) if mp != "no" else None)
+                fb = fp(b_) + "|" + repr(b_.frame.pack) + "|" + str(b_.frame)
+            except Exception as e:  # noqa
+                return [("C01:decode-raised:%s@%s" % (type(e).__name__, library_frame(e.__traceback__)),
+                         "from_frame(reused %d-bit buffer refilled to %#x) raised %r" % (bits, v, e))]
+            if fa != fb:
+                return [("C01:decode-from-reused-buffer-differs", "%d-bit %#x shifted bit by bit into a reused frame object decodes "
+                         "and renders as %r, from a fresh frame as %r" % (bits, v, fa, fb))]
             continue
         if op[0] == "mapadd":
             grow.add_type(short_address=op[1], instance_number=op[2], instance_type=op[3])
